@@ -177,6 +177,18 @@ Theorem c05_cfi_walker_in_range :
 Proof. exact real_walk_in_range. Qed.
 Print Assumptions c05_cfi_walker_in_range.
 
+(* ... hence the oracle the correspondence driver runs for arbitrary rule text (C06's evaluator over the real
+   CfiStackWalker, [cfi_text]) meets the contract of the theorems above for every callee whose registers are
+   within their slots *)
+Theorem c05_cfi_text_contract :
+  forall a mem mods regnames lrname callee gc fwd r v,
+    arch_ok a -> mem_wf mem -> frame_wf a callee ->
+    (forall n, in_slot a (slot_value a regnames lrname (f_regs callee) n)) ->
+    cfi_text a mem mods regnames lrname callee gc fwd = Some (r, v) ->
+    regs_wf a r /\ Forall (in_slot a) (r_gp r).
+Proof. exact cfi_text_contract. Qed.
+Print Assumptions c05_cfi_text_contract.
+
 (* ---- the refutations that led to the repairs in /repo (kept checkable: [code_before_fixes]) *)
 Definition w_cfi_never_reads (callee : frame) (_ : option frame) (_ : list Z) : option (regs * list Z) :=
   let sp := r_sp (f_regs callee) in
